@@ -37,8 +37,10 @@ def main():
             continue
         try:
             res = []
-            for p in PROPS:
-                rc, out = sh(f'./check {p} --tier quick --no-evidence', HERE)
+            from concurrent.futures import ThreadPoolExecutor
+            with ThreadPoolExecutor(10) as ex:
+                outs = list(ex.map(lambda p_: (p_,) + sh(f'./check {p_} --tier quick --no-evidence', HERE), PROPS))
+            for p, rc, out in outs:
                 if rc != 0:
                     line = [l for l in out.splitlines() if l.startswith(('VIOLATION', 'ANALYSIS-ERROR', '  rule='))][:2]
                     res.append(f'{p} rc={rc} ' + ' | '.join(l.strip()[:160] for l in line))
